@@ -23,21 +23,29 @@ type opBatch struct {
 }
 
 type gen struct {
-	r       *hx.Rand
-	big     bool
-	rep     *hx.Report
-	c       *ctx
-	batches []opBatch
-	cur     *opBatch
+	r    *hx.Rand
+	big  bool
+	rep  *hx.Report
+	c    *ctx
+	cur  *opBatch
+	emit func(b opBatch) // runs a finished batch (implementation, model, diff)
 }
 
-func newGen(r *hx.Rand, big bool, rep *hx.Report, c *ctx) *gen {
-	return &gen{r: r, big: big, rep: rep, c: c}
+func newGen(r *hx.Rand, big bool, rep *hx.Report, c *ctx, emit func(opBatch)) *gen {
+	return &gen{r: r, big: big, rep: rep, c: c, emit: emit}
 }
 
+// stream starts a new batch; the previous one is run and released.
 func (g *gen) stream(name string) {
-	g.batches = append(g.batches, opBatch{stream: name})
-	g.cur = &g.batches[len(g.batches)-1]
+	g.flush()
+	g.cur = &opBatch{stream: name}
+}
+
+func (g *gen) flush() {
+	if g.cur != nil && len(g.cur.ops) > 0 {
+		g.emit(*g.cur)
+	}
+	g.cur = nil
 }
 
 func (g *gen) add(op string) { g.cur.ops = append(g.cur.ops, op) }
@@ -183,7 +191,7 @@ func (g *gen) codecs() {
 
 func (g *gen) signerOps() {
 	g.stream("signer")
-	combos := g.n(6, 60)
+	combos := g.n(6, 150)
 	for i := 0; i < combos; i++ {
 		k, d := g.key(), g.data()
 		if i == 0 {
@@ -237,7 +245,7 @@ func (g *gen) sessionOps() {
 	g.stream("sessions")
 	maxes := []int64{0, -1e9, 1, 1e9, 3600e9, 7 * 24 * 3600e9, 1 << 61}
 	nows := []int64{0, 1, 1_700_000_000_123_456_789, 1 << 62}
-	for i := 0; i < g.n(40, 600); i++ {
+	for i := 0; i < g.n(40, 1500); i++ {
 		k, d := g.key(), g.data()
 		mx := hx.Pick(g.r, maxes)
 		now := hx.Pick(g.r, nows)
@@ -277,7 +285,7 @@ func (g *gen) sessionOps() {
 		for n := 0; n < 8; n++ {
 			chk([]byte(signer.New(k).SignHex(g.r.Bytes(n))), now, "sesscheck")
 		}
-		if i < g.n(5, 40) {
+		if i < g.n(5, 120) {
 			at := exp - 1
 			g.mutations([]byte(tok), func(m []byte, kind string) {
 				chk(m, at, "sesscheck")
@@ -300,7 +308,7 @@ func (g *gen) sessionOps() {
 func (g *gen) timeOps() {
 	g.stream("timetokens")
 	ws := []int64{0, 1, -1, 2, 1e9, -1e9, 30e9, 3600e9}
-	for i := 0; i < g.n(24, 300); i++ {
+	for i := 0; i < g.n(24, 800); i++ {
 		k := g.key()
 		w := ws[i%len(ws)]
 		t := hx.Pick(g.r, []int64{0, 1_700_000_000_000_000_000, 1 << 61, 5})
@@ -323,7 +331,7 @@ func (g *gen) timeOps() {
 			b := append(le64(t), g.r.Bytes(8)...)[:n]
 			chk([]byte(signer.New(k).SignHex(b)), t)
 		}
-		if i < g.n(4, 30) && aw > 0 {
+		if i < g.n(4, 100) && aw > 0 {
 			g.mutations([]byte(tok), func(m []byte, kind string) {
 				chk(m, t)
 				g.rep.Count("timetokens:" + kind)
@@ -533,7 +541,7 @@ func (g *gen) jwtTimes(iat, exp int64) []int64 {
 
 func (g *gen) jwtHS() {
 	g.stream("jwt-hs256")
-	for i := 0; i < g.n(10, 120); i++ {
+	for i := 0; i < g.n(10, 300); i++ {
 		k := g.key()
 		kid := hx.Pick(g.r, []string{"", "k1", "key-2023"})
 		iat := hx.Pick(g.r, []int64{1_700_000_000, 0, 1000, 1 << 33}) // iat*1e9 stays inside int64
@@ -570,7 +578,7 @@ func (g *gen) jwtHS() {
 		// alg none with empty signature
 		t3, _ := jwt.EncodeAndSign(bg, cl, &rawSigner{h: jwt.Header{Alg: "none", Typ: "JWT", KeyID: kid}, sig: func([]byte) []byte { return nil }})
 		chk(t3, k, kid, mid)
-		if i < g.n(3, 20) {
+		if i < g.n(3, 60) {
 			g.jwtMutations(tok, func(m, kind string) {
 				chk(m, k, kid, mid)
 				g.rep.Count("jwt-hs256:" + kind)
@@ -663,7 +671,7 @@ func (g *gen) rsTables(tok string, ks []keySpec) string {
 
 func (g *gen) jwtRS() {
 	g.stream("jwt-rs256")
-	for i := 0; i < g.n(6, 40); i++ {
+	for i := 0; i < g.n(6, 80); i++ {
 		iat := hx.Pick(g.r, []int64{1_700_000_000, 1_000_000})
 		life := hx.Pick(g.r, []int64{300, 3600})
 		exp := iat + life
@@ -671,7 +679,7 @@ func (g *gen) jwtRS() {
 		// the signing key is the last one; its validity brackets the token's life or cuts into it
 		nb := hx.Pick(g.r, []int64{0, iat - 1000, iat + 10, -5})
 		na := hx.Pick(g.r, []int64{exp + 1000, exp - 10, iat + 100})
-		if i < g.n(2, 6) { // the tokens whose mutations are swept verify at `mid`
+		if i < g.n(2, 12) { // the tokens whose mutations are swept verify at `mid`
 			nb, na = hx.Pick(g.r, []int64{0, iat - 1000}), exp+1000
 		}
 		ks := []keySpec{
@@ -744,12 +752,23 @@ func (g *gen) jwtRS() {
 			chk(tok, v, mid)
 			g.rep.Count("jwt-rs256:keyrule")
 		}
+		// a genuine RSA signature under a header that does not say RS256
+		if rk := g.c.keys[main.label]; rk != nil {
+			for _, alg := range []string{"HS256", "none", "rs256", ""} {
+				t2, err := jwt.EncodeAndSign(bg, g.claims(iat, exp), &rawSigner{h: jwt.Header{Alg: alg, Typ: "JWT", KeyID: "main"},
+					sig: func(d []byte) []byte { return rsaSign(rk, d) }})
+				if err == nil {
+					chk(t2, []keySpec{{"main", "ssh-rsa", main.label, exp + 1000, 0}}, mid)
+					g.rep.Count("jwt-rs256:alg")
+				}
+			}
+		}
 		// an HS256 token whose key is the public key text (algorithm confusion)
 		pubText := []byte(g.c.keyText(main.label))
 		if t2, err := jwt.EncodeAndSign(bg, g.claims(iat, exp), jwt.NewHS256(pubText, "main")); err == nil {
 			chk(t2, ks, mid)
 		}
-		if i < g.n(2, 6) {
+		if i < g.n(2, 12) {
 			g.jwtMutations(tok, func(m, kind string) {
 				chk(m, ks, mid)
 				g.rep.Count("jwt-rs256:" + kind)
@@ -812,6 +831,9 @@ const t0 = int64(1_700_000_000_000_000_000)
 func (g *gen) passOps() {
 	g.stream("passcode")
 	hist := func(ops ...string) {
+		if len(g.cur.ops) > 150000 {
+			g.stream("passcode")
+		}
 		g.add("pc reset")
 		for _, o := range ops {
 			g.add("pc " + o)
@@ -852,7 +874,7 @@ func (g *gen) passOps() {
 		}
 	}
 	// random histories up to length 16
-	for i := 0; i < g.n(1500, 40000); i++ {
+	for i := 0; i < g.n(1500, 120000); i++ {
 		n := 2 + g.r.Intn(15)
 		now := t0
 		lastIssue := t0
@@ -901,7 +923,7 @@ func (g *gen) passOps() {
 		hist(ops...)
 	}
 	if g.big {
-		// every history of length <= 5 over a small alphabet
+		// every history of length <= 6 over a small alphabet
 		alpha := []string{"create", "disable", "enable", issue(t0, ten), setup(t0, "right"), setup(t0, "wrong"),
 			setup(t0+ten+1, "right"), "remove"}
 		var rec func(prefix []string, depth int)
@@ -916,7 +938,7 @@ func (g *gen) passOps() {
 				rec(append(append([]string{}, prefix...), a), depth-1)
 			}
 		}
-		rec(nil, 5)
+		rec(nil, 6)
 	}
 }
 
@@ -929,4 +951,5 @@ func (g *gen) all() {
 	g.jwtRS()
 	g.claimOps()
 	g.passOps()
+	g.flush()
 }
